@@ -49,10 +49,14 @@ def render(e, indent, inherited_ns=None, depth=0, rootdecl=""):
 
 
 DATETIMES = ["2002-04-16T06:40:00Z", "1999-12-31T23:59:59Z", "2020-01-01T00:00:00Z", "2002-04-16T06:40Z", "2010-10-10T10:00:00Z",
-             "20020416064000", "2003-01-01T00:00:00Z"]
+             "20020416064000", "2003-01-01T00:00:00Z",
+             # canon_dt case splits: 4 / 5 / 6 / 7 BCD octets, all-zero time (the zero octets are not written), date only
+             "1999-06-25", "1999-06-25T00:00:00Z", "1999-06-25T10", "1999-06-25T10:20", "2000-01-01T00:00:07Z", "1999-06-25T10:00:00Z"]
 WV_DATETIMES = ["20011019T095031Z", "20011019T095031", "20011019T0950", "20011019T0950Z", "20011019T095031A", "2001-10-19T09:50:31Z",
                 "19991231T235959Y", "08000101T0100", "40951231T235959"]
-WV_INTS = ["0", "1", "127", "128", "255", "256", "65535", "65536", "16777216", "4294967295", "200", "0x1F", "0xffff", "42"]
+WV_INTS = ["0", "1", "127", "128", "255", "256", "65535", "65536", "16777216", "4294967295", "200", "0x1F", "0xffff", "42",
+           # canon_wv_int case splits: leading zeros, the 0X form, 1..4 octet boundaries written with leading zeros
+           "0200", "007", "0X10", "00256", "0065536"]
 ICON = base64.b64encode(b"GIF89a\x01\x00\x01\x00\x80\x00\x00\xff\xff\xff\x00\x00\x00!\xf9\x04").decode()
 BINS = [base64.b64encode(b).decode() for b in (b"binary\x00data\xff\xfe", b"abcd", b"\x00\x01\x02", b"The quick brown fox", b"abcd")]
 
@@ -365,7 +369,21 @@ class LangGen:
                 blank.append(self.elt(b, [pl]))
             rows = [r for r in (self.attrs or []) if ":" not in r[0]]
             blank.append(self.elt(b, [BLANK_BINS[k % len(BLANK_BINS)]], None if not rows else [(rows[0][0], "v")]))
-        return [self.root(kids), self.root(blank)]
+        # a byte array that occurs twice is collected into the string table like any text (collect_strings does not look
+        # at the flag) but is written as OPAQUE both times; the same octets as ordinary text elsewhere ARE cut against
+        # that entry (STR_T); a byte array with a NUL that occurs twice is an entry nothing can reference
+        shared = []
+        nul2 = base64.b64encode(b"ab\x00cdef").decode()
+        for k, b in enumerate(bins[:6]):
+            o = other[k % len(other)]
+            shared.append(self.elt(b, [BINS[1]]))
+            shared.append(self.elt(o, ["abcd"]))
+            shared.append(self.elt(b, [BINS[1]]))
+            shared.append(self.elt(o, ["zz abcd yy"]))
+            shared.append(self.elt(b, [nul2]))
+            shared.append(self.elt(b, [nul2]))
+            shared.append(self.elt(o, ["ab"]))
+        return [self.root(kids), self.root(blank), self.root(shared)]
 
 
 def documents(tj, rng, quick=True, token_root=False):
